@@ -429,6 +429,42 @@ theorem gbk_ungroup (parts : List (List (κ × β))) :
     have := addAll_ungroup ([] : List (κ × List β)) p
     simpa [ungroup, groupLocal_eq] using this
 
+/-! ### a grouping with distinct keys is determined, up to the order of its rows, by `groupOf` -/
+
+theorem groupOf_cons_ne (k k' : κ) (ws : List β) (m : List (κ × List β)) (h : k' ≠ k) :
+    groupOf k ((k', ws) :: m) = groupOf k m := by
+  simp [groupOf, h]
+
+theorem eq_map_groupOf (m : List (κ × List β)) (h : (keys m).Nodup) :
+    m = (keys m).map (fun k => (k, groupOf k m)) := by
+  induction m with
+  | nil => rfl
+  | cons g m ih =>
+    obtain ⟨k', ws⟩ := g
+    simp only [keys, List.map_cons, List.nodup_cons] at h
+    simp only [keys, List.map_cons, groupOf, if_true, List.cons.injEq, true_and]
+    have := ih h.2
+    simp only [keys] at this
+    conv => lhs; rw [this]
+    apply List.map_congr_left
+    intro k hk
+    have hne : k' ≠ k := by
+      intro e; subst e; exact h.1 hk
+    simp [hne]
+
+/-- two groupings with distinct keys, the same key set and the same group for every key are the same
+    rows in a possibly different order (the order a `HashMap` iteration happens to produce) -/
+theorem groups_perm_of_groupOf_eq (gs gs' : List (κ × List β))
+    (hn : (keys gs).Nodup) (hn' : (keys gs').Nodup)
+    (hm : ∀ k, k ∈ keys gs ↔ k ∈ keys gs') (hg : ∀ k, groupOf k gs = groupOf k gs') :
+    gs.Perm gs' := by
+  have hp : (keys gs).Perm (keys gs') := (List.perm_ext_iff_of_nodup hn hn').mpr hm
+  rw [eq_map_groupOf gs hn, eq_map_groupOf gs' hn']
+  have hf : (fun k => (k, groupOf k gs)) = (fun k => (k, groupOf k gs')) := by
+    funext k; rw [hg k]
+  rw [hf]
+  exact hp.map _
+
 end GroupBy
 
 /-! ## maps that may panic, keyed maps -/
@@ -477,6 +513,54 @@ theorem mapAll_flatten {α β : Type} (f : α → Option β) (parts : List (List
             | some ys =>
               simp only [hx, hxs, Option.some.injEq] at hp; subst hp
               simp only [List.cons_append, mapAll, hx, ihx ys hxs]
+
+/-- `mapAll f xs` returns `ys` iff `f` returns on every element and `ys` is the list of results,
+    position by position -/
+theorem mapAll_eq_some_iff {α β : Type} (f : α → Option β) (xs : List α) (ys : List β) :
+    mapAll f xs = some ys ↔ xs.map f = ys.map some := by
+  induction xs generalizing ys with
+  | nil =>
+    cases ys with
+    | nil => simp [mapAll]
+    | cons y ys => simp [mapAll]
+  | cons x xs ih =>
+    unfold mapAll
+    cases hx : f x with
+    | none =>
+      cases ys with
+      | nil => simp
+      | cons y ys => simp [hx]
+    | some y' =>
+      cases hm : mapAll f xs with
+      | none =>
+        cases ys with
+        | nil => simp
+        | cons y ys =>
+          have hno : ¬ xs.map f = ys.map some := fun e => by
+            have := (ih ys).mpr e
+            rw [hm] at this; cases this
+          simp only [List.map_cons, List.cons.injEq, hx, Option.some.injEq, reduceCtorEq, false_iff, not_and]
+          intro _; exact hno
+      | some ys' =>
+        cases ys with
+        | nil => simp
+        | cons y ys =>
+          have := ih ys
+          rw [hm] at this
+          simp only [Option.some.injEq] at this
+          simp only [Option.some.injEq, List.cons.injEq, List.map_cons, hx, this]
+
+/-- running a possibly panicking map on every partition and concatenating = running it on the
+    concatenation (both panic, or both return the same list) -/
+theorem mapAll_parts_flatten {α β : Type} (f : α → Option β) (parts : List (List α)) :
+    (mapAll (mapAll f) parts).map List.flatten = mapAll f parts.flatten := by
+  cases h : mapAll (mapAll f) parts with
+  | some kparts => rw [Option.map_some, mapAll_flatten f parts kparts h]
+  | none =>
+    rw [Option.map_none]
+    obtain ⟨p, hp, hnone⟩ := (mapAll_eq_none_iff _ _).mp h
+    obtain ⟨x, hx, hfx⟩ := (mapAll_eq_none_iff _ _).mp hnone
+    exact ((mapAll_eq_none_iff _ _).mpr ⟨x, List.mem_flatten.mpr ⟨p, hp, hx⟩, hfx⟩).symm
 
 theorem mapAll_keyed_filter [DecidableEq κ] (g : α → Option κ) (v : α → β) (xs : List α) (ys : List (κ × β))
     (h : mapAll (keyed g v) xs = some ys) (k : κ) :
